@@ -501,6 +501,9 @@ pub struct Node<H: HB> {
 }
 
 impl<H: HB> Node<H> {
+    pub fn dup(&self) -> Node<H> {
+        Node { q: self.q.clone(), unordered: self.unordered, root: self.root.clone(), path: self.path.clone() }
+    }
     pub fn ops(&self) -> Vec<Op> {
         let mut v = vec![];
         let mut p = self.path.clone();
@@ -525,6 +528,9 @@ pub struct Case {
     pub probe: Option<String>,
     pub detail: String,
     pub universe: Vec<u32>,
+    /// a second state taking part in the case (append / equality pairs)
+    #[serde(default)]
+    pub aux: Option<(bool, Root, Vec<Op>)>,
 }
 
 impl Case {
@@ -624,7 +630,7 @@ pub struct Explorer<'a, H: HB> {
     pub violations: Mutex<Vec<Case>>,
     pub stop: AtomicBool,
     /// every unique state, if the caller wants them (pairs / differential checks)
-    pub collect: Option<Mutex<Vec<(AnyQ<H>, Vec<u8>)>>>,
+    pub collect: Option<Mutex<Vec<Node<H>>>>,
 }
 
 const SHARDS: usize = 256;
@@ -634,7 +640,7 @@ impl<'a, H: HB> Explorer<'a, H> {
         Explorer { cfg, probes: vec![], stats: Stats::default(), violations: Mutex::new(vec![]), stop: AtomicBool::new(false), collect: None }
     }
 
-    fn case(&self, node: &Node<H>, last: Option<&Op>, probe: Option<String>, detail: String) -> Case {
+    pub fn case(&self, node: &Node<H>, last: Option<&Op>, probe: Option<String>, detail: String) -> Case {
         Case {
             prop: self.cfg.prop.to_string(),
             hasher: H::NAME.to_string(),
@@ -645,10 +651,11 @@ impl<'a, H: HB> Explorer<'a, H> {
             probe,
             detail,
             universe: self.cfg.universe(),
+            aux: None,
         }
     }
 
-    fn report(&self, c: Case) {
+    pub fn report(&self, c: Case) {
         let mut v = self.violations.lock().unwrap();
         let sig = c.signature();
         if !v.iter().any(|x| x.signature() == sig) {
@@ -719,11 +726,11 @@ impl<'a, H: HB> Explorer<'a, H> {
         {
             for (double, r) in roots {
                 self.stats.roots.fetch_add(1, AO::Relaxed);
-                crate::crash::set_case(|| Case { prop: cfg.prop.into(), hasher: H::NAME.into(), double, root: r.clone(), ops: vec![], last: None, probe: None, detail: String::new(), universe: universe.clone() });
+                crate::crash::set_case(|| Case { prop: cfg.prop.into(), hasher: H::NAME.into(), double, root: r.clone(), ops: vec![], last: None, probe: None, detail: String::new(), universe: universe.clone(), aux: None });
                 let root = Arc::new((double, r.clone()));
                 match make_root::<H>(double, &r, &universe) {
                     Err(e) => {
-                        self.report(Case { prop: cfg.prop.into(), hasher: H::NAME.into(), double, root: r.clone(), ops: vec![], last: None, probe: None, detail: e, universe: universe.clone() });
+                        self.report(Case { prop: cfg.prop.into(), hasher: H::NAME.into(), double, root: r.clone(), ops: vec![], last: None, probe: None, detail: e, universe: universe.clone(), aux: None });
                     }
                     Ok(q) => {
                         let s = q.snap();
@@ -739,7 +746,7 @@ impl<'a, H: HB> Explorer<'a, H> {
                                 Err((p, e)) => self.report(self.case(&node, None, p, e)),
                             }
                             if let Some(c) = &self.collect {
-                                c.lock().unwrap().push((node.q.clone(), key));
+                                c.lock().unwrap().push(node.dup());
                             }
                             frontier.push(node);
                         }
@@ -812,7 +819,7 @@ impl<'a, H: HB> Explorer<'a, H> {
                                                 local.samples.push(format!("{:?} {:?} -> {:?}", child.root, child.ops(), ap.snap.slots));
                                             }
                                             if let Some(c) = &self.collect {
-                                                c.lock().unwrap().push((child.q.clone(), key));
+                                                c.lock().unwrap().push(child.dup());
                                             }
                                             mine.push(child);
                                         } else if cfg.merge_check {
